@@ -19,12 +19,16 @@ pub struct ClockState {
     pub shown_min: Option<u64>,
     pub shown_max: Option<u64>,
     pub shown_count: u64,
+    /// every wall reading (ms) shown since `begin_call`, in order (capped)
+    pub shown: Vec<u64>,
     /// total simulated wall time covered (forward movement only), ns
     pub covered_ns: u64,
 }
 
 thread_local! {
     static CLOCK: RefCell<Option<ClockState>> = const { RefCell::new(None) };
+    /// simulated time covered by clocks already uninstalled on this thread
+    static COVERED_DONE: std::cell::Cell<u64> = const { std::cell::Cell::new(0) };
 }
 
 pub const NS_PER_MS: u64 = 1_000_000;
@@ -50,6 +54,9 @@ pub fn install(wall_ms: u64) {
                 s.shown_min = Some(s.shown_min.map_or(v, |m| m.min(v)));
                 s.shown_max = Some(s.shown_max.map_or(v, |m| m.max(v)));
                 s.shown_count += 1;
+                if s.shown.len() < 64 {
+                    s.shown.push(v / NS_PER_MS);
+                }
                 if !s.tick_pattern.is_empty() {
                     let d = s.tick_pattern[(s.reads as usize) % s.tick_pattern.len()] as u64 * NS_PER_MS;
                     s.wall_ns += d;
@@ -73,7 +80,11 @@ pub fn install(wall_ms: u64) {
 
 pub fn uninstall() {
     verif_hooks::set_clock(None);
-    CLOCK.with(|c| *c.borrow_mut() = None);
+    CLOCK.with(|c| {
+        if let Some(s) = c.borrow_mut().take() {
+            COVERED_DONE.with(|d| d.set(d.get() + s.covered_ns));
+        }
+    });
 }
 
 pub fn now_ms() -> u64 {
@@ -120,7 +131,13 @@ pub fn begin_call() {
         s.shown_min = None;
         s.shown_max = None;
         s.shown_count = 0;
+        s.shown.clear();
     })
+}
+
+/// wall readings (ms) shown since `begin_call`, in order
+pub fn shown_list() -> Vec<u64> {
+    with(|s| s.shown.clone())
 }
 
 /// (min ms, max ms, number of reads) shown since `begin_call`; None if the clock was not read.
@@ -132,5 +149,5 @@ pub fn shown_ms() -> Option<(u64, u64, u64)> {
 }
 
 pub fn covered_ms() -> u64 {
-    CLOCK.with(|c| c.borrow().as_ref().map_or(0, |s| s.covered_ns / NS_PER_MS))
+    (COVERED_DONE.with(|d| d.get()) + CLOCK.with(|c| c.borrow().as_ref().map_or(0, |s| s.covered_ns))) / NS_PER_MS
 }
